@@ -362,13 +362,10 @@ Section Inside.
     cbn zeta in A, B, C, D.
     replace (if fl then [] else filter F qv) with (filter F (if fl then [] else qv)) by (destruct fl; reflexivity).
     rewrite B, C, D. split; [exact A|].
-    rewrite !filter_app, (emit_Rel p lsub _ _ A Hp), (emit_Rel p lprog _ _ A Hp), (emit_Rel p pre _ _ HR Hp).
+    rewrite !filter_app, (emit_Rel p lsub _ _ HR Hp), (emit_Rel p lprog _ _ HR Hp), (emit_Rel p pre _ _ HR Hp).
     repeat split.
     - destruct fl; reflexivity.
     - f_equal. f_equal. destruct fl; auto.
-      apply flush_Rel; auto.
-      pose proof (run_kids_under kids p p 0 s1 [] qp (is_prefix_refl p) (Forall_nil _)) as U.
-      eapply Forall_impl; [|exact U]. intros [p' r] Hd. apply HF. exact Hd.
   Qed.
 
   Lemma inside_node n : inside_stmt n.
